@@ -213,55 +213,67 @@ Record st := {
   subkind : list (handle * (subid + bytes));   (* what a front-end Subscription value refers to *)
   bufcap : nat;                (* max_buffer_capacity_per_subscription *)
   dead : bool;
-  dying : option fatal         (* the read task has ended with this error; the send task has not noticed yet *)
+  dying : option fatal;        (* a background task has ended with this error; shutdown has not happened yet *)
+  sendfail : bool;             (* the next transport write fails (injected fault) *)
+  unacked : list id            (* HISTORY VARIABLE (read by no transition): ids of unsubscribe calls sent and not yet answered *)
 }.
 
 Definition init (idstr : bool) (qc : nat) (bc : nat) (gate : bool) : st :=
   {| m := empty_mgr; chans := []; next_id := 0; id_str := idstr; queue := []; qcap := qc; waiting := [];
-     gone := []; gated := gate; busy := false; unsubw := []; subkind := []; bufcap := bc; dead := false; dying := None |}.
+     gone := []; gated := gate; busy := false; unsubw := []; subkind := []; bufcap := bc; dead := false; dying := None; sendfail := false; unacked := [] |}.
 
 Definition upd_m (s : st) (m' : mgr) : st :=
   {| m := m'; chans := chans s; next_id := next_id s; id_str := id_str s; queue := queue s; qcap := qcap s;
      waiting := waiting s; gone := gone s; gated := gated s; busy := busy s; unsubw := unsubw s;
-     subkind := subkind s; bufcap := bufcap s; dead := dead s; dying := dying s |}.
+     subkind := subkind s; bufcap := bufcap s; dead := dead s; dying := dying s; sendfail := sendfail s; unacked := unacked s |}.
 Definition upd_chans (s : st) (c : list (handle * chan)) : st :=
   {| m := m s; chans := c; next_id := next_id s; id_str := id_str s; queue := queue s; qcap := qcap s;
      waiting := waiting s; gone := gone s; gated := gated s; busy := busy s; unsubw := unsubw s;
-     subkind := subkind s; bufcap := bufcap s; dead := dead s; dying := dying s |}.
+     subkind := subkind s; bufcap := bufcap s; dead := dead s; dying := dying s; sendfail := sendfail s; unacked := unacked s |}.
 Definition upd_next (s : st) (n : N) : st :=
   {| m := m s; chans := chans s; next_id := n; id_str := id_str s; queue := queue s; qcap := qcap s;
      waiting := waiting s; gone := gone s; gated := gated s; busy := busy s; unsubw := unsubw s;
-     subkind := subkind s; bufcap := bufcap s; dead := dead s; dying := dying s |}.
+     subkind := subkind s; bufcap := bufcap s; dead := dead s; dying := dying s; sendfail := sendfail s; unacked := unacked s |}.
 Definition upd_queue (s : st) (q w : list f2b) : st :=
   {| m := m s; chans := chans s; next_id := next_id s; id_str := id_str s; queue := q; qcap := qcap s;
      waiting := w; gone := gone s; gated := gated s; busy := busy s; unsubw := unsubw s;
-     subkind := subkind s; bufcap := bufcap s; dead := dead s; dying := dying s |}.
+     subkind := subkind s; bufcap := bufcap s; dead := dead s; dying := dying s; sendfail := sendfail s; unacked := unacked s |}.
 Definition upd_gone (s : st) (g : list handle) : st :=
   {| m := m s; chans := chans s; next_id := next_id s; id_str := id_str s; queue := queue s; qcap := qcap s;
      waiting := waiting s; gone := g; gated := gated s; busy := busy s; unsubw := unsubw s;
-     subkind := subkind s; bufcap := bufcap s; dead := dead s; dying := dying s |}.
+     subkind := subkind s; bufcap := bufcap s; dead := dead s; dying := dying s; sendfail := sendfail s; unacked := unacked s |}.
 Definition upd_busy (s : st) (b : bool) : st :=
   {| m := m s; chans := chans s; next_id := next_id s; id_str := id_str s; queue := queue s; qcap := qcap s;
      waiting := waiting s; gone := gone s; gated := gated s; busy := b; unsubw := unsubw s;
-     subkind := subkind s; bufcap := bufcap s; dead := dead s; dying := dying s |}.
+     subkind := subkind s; bufcap := bufcap s; dead := dead s; dying := dying s; sendfail := sendfail s; unacked := unacked s |}.
 Definition upd_unsubw (s : st) (u : list (handle * handle)) : st :=
   {| m := m s; chans := chans s; next_id := next_id s; id_str := id_str s; queue := queue s; qcap := qcap s;
      waiting := waiting s; gone := gone s; gated := gated s; busy := busy s; unsubw := u;
-     subkind := subkind s; bufcap := bufcap s; dead := dead s; dying := dying s |}.
+     subkind := subkind s; bufcap := bufcap s; dead := dead s; dying := dying s; sendfail := sendfail s; unacked := unacked s |}.
 Definition upd_subkind (s : st) (k : list (handle * (subid + bytes))) : st :=
   {| m := m s; chans := chans s; next_id := next_id s; id_str := id_str s; queue := queue s; qcap := qcap s;
      waiting := waiting s; gone := gone s; gated := gated s; busy := busy s; unsubw := unsubw s;
-     subkind := k; bufcap := bufcap s; dead := dead s; dying := dying s |}.
+     subkind := k; bufcap := bufcap s; dead := dead s; dying := dying s; sendfail := sendfail s; unacked := unacked s |}.
 Definition upd_dead (s : st) : st :=
   {| m := m s; chans := chans s; next_id := next_id s; id_str := id_str s; queue := queue s; qcap := qcap s;
      waiting := waiting s; gone := gone s; gated := gated s; busy := busy s; unsubw := unsubw s;
-     subkind := subkind s; bufcap := bufcap s; dead := true; dying := dying s |}.
+     subkind := subkind s; bufcap := bufcap s; dead := true; dying := dying s; sendfail := sendfail s; unacked := unacked s |}.
 
 Definition upd_dying (s : st) (f : fatal) : st :=
   {| m := m s; chans := chans s; next_id := next_id s; id_str := id_str s; queue := queue s; qcap := qcap s;
      waiting := waiting s; gone := gone s; gated := gated s; busy := busy s; unsubw := unsubw s;
      subkind := subkind s; bufcap := bufcap s; dead := dead s;
-     dying := match dying s with Some f0 => Some f0 | None => Some f end |}.
+     dying := match dying s with Some f0 => Some f0 | None => Some f end; sendfail := sendfail s; unacked := unacked s |}.
+
+Definition upd_sendfail (s : st) (b : bool) : st :=
+  {| m := m s; chans := chans s; next_id := next_id s; id_str := id_str s; queue := queue s; qcap := qcap s;
+     waiting := waiting s; gone := gone s; gated := gated s; busy := busy s; unsubw := unsubw s;
+     subkind := subkind s; bufcap := bufcap s; dead := dead s; dying := dying s; sendfail := b; unacked := unacked s |}.
+
+Definition upd_unacked (s : st) (u : list id) : st :=
+  {| m := m s; chans := chans s; next_id := next_id s; id_str := id_str s; queue := queue s; qcap := qcap s;
+     waiting := waiting s; gone := gone s; gated := gated s; busy := busy s; unsubw := unsubw s;
+     subkind := subkind s; bufcap := bufcap s; dead := dead s; dying := dying s; sendfail := sendfail s; unacked := u |}.
 
 Definition alive (s : st) (h : handle) : bool := negb (existsb (N.eqb h) (gone s)).
 Definition complete (s : st) (h : handle) (r : cres) : list out := if alive s h then [OComplete h r] else [].
@@ -313,7 +325,9 @@ Definition unsub_request (s : st) (u : id) (um : bytes) (sid : subid) : bytes :=
   ser_request {| rq_id := u; rq_method := um; rq_params := Some (x5b :: ser_subid sid ++ [x5d]) |}.
 
 (* a transport write: frame goes out; with the gate on the task stays inside the write until released *)
-Definition wire (s : st) (raw : bytes) : st * list out := (if gated s then upd_busy s true else s, [OWire raw]).
+Definition wire (s : st) (raw : bytes) : st * list out :=
+  if sendfail s then (upd_dying (upd_sendfail s false) FTransport, [])      (* the write errors: the send task ends *)
+  else (if gated s then upd_busy s true else s, [OWire raw]).
 
 (* build_unsubscribe_message + manager.unsubscribe (repaired: the subscribe-id entry is removed) *)
 Definition do_unsubscribe (s : st) (sid : subid) : st * list out :=
@@ -324,7 +338,7 @@ Definition do_unsubscribe (s : st) (sid : subid) : st * list out :=
     | Some (KSub u ch um) =>
       let m1 := set_subs (set_requests (m s) (aremove id_eqb rid (requests (m s)))) (aremove subid_eqb sid (subs (m s))) in
       let s1 := drop_sink (upd_m s m1) ch in
-      wire s1 (unsub_request s1 u um sid)
+      wire (upd_unacked s1 (u :: unacked s1)) (unsub_request s1 u um sid)
     | _ => (s, [])
     end
   end.
@@ -372,7 +386,7 @@ Fixpoint drain (fuel : nat) (s : st) : st * list out :=
   | O => (s, [])
   | S f =>
     let s0 := admit_waiting (length (waiting s)) s in
-    if busy s0 || dead s0 then (s0, [])
+    if busy s0 || dead s0 || (match dying s0 with Some _ => true | None => false end) then (s0, [])
     else match queue s0 with
          | [] => (s0, [])
          | msg :: q =>
@@ -381,11 +395,6 @@ Fixpoint drain (fuel : nat) (s : st) : st * list out :=
            (s2, o1 ++ o2)
          end
   end.
-
-Definition settle0 (s : st) : st * list out :=
-  let '(s1, o1) := drain (S (length (queue s) + length (waiting s))) s in
-  let '(s2, o2) := finish_unsubs s1 in
-  (s2, o1 ++ o2).
 
 (* ---------- the read task: handle_backend_messages ---------- *)
 (* forward a message to the send task (read_task: pending_unsubscribes.push(to_send_task.send(msg))) *)
@@ -447,6 +456,7 @@ Definition single_response (s : st) (r : response) : rres :=
   match req_lookup i (m s) with
   | Some (KCall w) =>
     let s1 := upd_m s (set_requests (m s) (aremove id_eqb i (requests (m s)))) in
+    let s1 := upd_unacked s1 (filter (fun u => negb (id_eqb i u)) (unacked s1)) in
     ROk s1 (match w with Some h => complete s h (CResp r) | None => [] end)
   | Some (KPendSub u w um) =>
     let m1 := set_requests (m s) (aremove id_eqb i (requests (m s))) in
@@ -559,7 +569,7 @@ Definition kill (s : st) (f : fatal) : st * list out :=
             ++ flat_map waiters_of_msg (queue s) ++ flat_map waiters_of_msg (waiting s) in
   let outs := flat_map (fun h => complete s h (CErr EDisconnected)) (sort_handles ws) in
   let s1 := upd_chans s (map (fun hc => (fst hc, chan_drop_tx (snd hc))) (chans s)) in
-  let s2 := upd_dead (upd_queue (upd_m s1 empty_mgr) [] []) in      (* pending unsubscribe() futures finish in settle *)
+  let s2 := upd_dead (upd_unacked (upd_queue (upd_m s1 empty_mgr) [] []) []) in      (* pending unsubscribe() futures finish in settle *)
   (s2, OFatal f :: outs).
 
 (* ---------- events ---------- *)
@@ -576,7 +586,8 @@ Inductive ev :=
 | FGiveUp (h : handle)
 | Release
 | Back (raw : bytes)
-| Fault.
+| Fault
+| FailSend.
 
 Definition batch_raw (s : st) (lo : N) (entries : list (bytes * option bytes)) : bytes :=
   let reqs := (fix go (n : N) (es : list (bytes * option bytes)) : list bytes :=
@@ -674,17 +685,23 @@ Definition apply (s : st) (e : ev) : st * list out * option nextres :=
       end
     end
   | Fault => (upd_dying s FTransport, [], None)
+  | FailSend => (upd_sendfail s true, [], None)
   end.
 
-(* the send task notices the end of the read task only when it is back in its select loop,
-   i.e. not while it is inside a transport write *)
-Definition settle (s : st) : st * list out :=
+(* a background task that has ended is noticed by the other one only when that one is back in its select
+   loop, i.e. not while the send task is inside a transport write; then both end and everything pending fails *)
+Definition try_kill (s : st) : st * list out :=
   match dying s with
-  | Some f =>
-    if busy s || dead s then settle0 s
-    else let '(s1, o1) := kill s f in let '(s2, o2) := settle0 s1 in (s2, o1 ++ o2)
-  | None => settle0 s
+  | Some f => if busy s || dead s then (s, []) else kill s f
+  | None => (s, [])
   end.
+
+Definition settle (s : st) : st * list out :=
+  let '(s1, o1) := try_kill s in
+  let '(s2, o2) := drain (S (length (queue s1) + length (waiting s1))) s1 in
+  let '(s3, o3) := try_kill s2 in
+  let '(s4, o4) := finish_unsubs s3 in
+  (s4, o1 ++ o2 ++ o3 ++ o4).
 
 Definition step (s : st) (e : ev) : st * list out * option nextres :=
   let '(s1, o1, r) := apply s e in
